@@ -267,7 +267,9 @@ class World:
             expect = {"real": "float", "complex": "complex", "bool": "boolean", "int": "integer"}[like[1]]
             # (only real vs complex is asserted, and not for likes that are constants themselves: their own like may be the
             # context's default one)
-            if tk in ("float", "complex") and expect in ("float", "complex") and tk != expect and like[0].kind != "constant":
+            # asserted only for likes that are real by construction (absolute / real / imag of something): other composite
+            # likes are normalised to their first operand, which may legitimately be of the other kind (x_real / z_complex)
+            if tk == "complex" and expect == "float" and like[0].kind in ("absolute", "real", "imag"):
                 raise Bad("readback/constant-like-kind", "constant(%r, like=<%s %s expression>) refers to a like of kind %s" % (val, like[1], like[0].kind, tk))
             if is_nan_value(val):
                 self.stats["nan_consts"] += 1
